@@ -30,6 +30,7 @@ def parseOp (x : String) : Option Op :=
   | ["chan-reopen", i] => i.toNat?.map .chanReopen
   | ["broker-close-conn"] => some .brokerCloseConn
   | ["die"] => some .die
+  | ["die-partial"] => some .diePartial
   | _ => none
 
 def stepCmd (s : L) : List String → Option (L × String)
